@@ -308,7 +308,7 @@ def reflow_root_is_first_pass_root(prog, rep, R):
             if c[0] == "cond":
                 foreign.append(key[:90])
             elif re.search(r"(\.parent|get_parent\([^()]*\))$", k2) and "get(" not in k2:
-                P = c[2] if c[0] == "is" else P
+                P = {"Some": "Some", "Continue": "Some", "None": "None", "Break": "None"}.get(c[2], c[2]) if c[0] == "is" else P
             elif "get(" in k2 and k2.rstrip(")").endswith("line_index") or (key.startswith("branch(get(") and "line_type" not in key):
                 if c[0] == "is":
                     G = {"Some": "Some", "Continue": "Some", "None": "None", "Break": "None"}.get(c[2], c[2])
@@ -368,7 +368,25 @@ def reflow_root_is_first_pass_root(prog, rep, R):
                     first = [(classify(cons), render(res)) for cons, res in tb.rows]
                 except TooComplex:
                     first = None
-    if not rep.check(first is not None, R, "anchor:first-pass-roots", "the filter that selects the lines the first wrapping pass starts from was not found (a closure over the line list in OptimisingLineFormatter::format)"):
+    if first is None:
+        # the same decision taken inside the loop: one iteration of the loop over the lines that contains the first wrapping call, as a
+        # region table — a path that reaches the wrapping call has found a root, a path back to the loop header has skipped the line
+        wc = sorted(wrapping_calls(prog, of), key=lambda c: c.bb)
+        for w in wc:
+            loops_w = [(h, L) for h, L in of.loops().items() if w.bb in L and any(c.bb == h and (c.callee or "").endswith("Iterator::next") and "arg3" in canon(of, c.args[0]) for c in of.calls())]
+            if not loops_w:
+                continue
+            h, L = min(loops_w, key=lambda x: len(x[1]))
+            nx = [c for c in of.calls() if c.bb == h and (c.callee or "").endswith("Iterator::next")][0]
+            tt = of.blocks[nx.t["target"]]["term"]
+            some = ([t_ for v, t_ in tt.get("targets", []) if v == 1] or [tt.get("otherwise")])[0]
+            try:
+                tb = Table(prog, of, start=some, stop={h, w.bb}, inline=2)
+                first = [(classify(cons), "True" if end == w.bb else "False") for (cons, res), end in zip(tb.rows, tb.ends)]
+            except TooComplex:
+                first = None
+            break
+    if not rep.check(first is not None, R, "anchor:first-pass-roots", "the decision which lines the first wrapping pass starts from was not found (a filter over the line list, or the loop around the first wrapping call, in OptimisingLineFormatter::format)"):
         return
     ff = [f for cl, _ in first for f in cl[4]]
     t_first = truth(first, None)
@@ -379,7 +397,12 @@ def reflow_root_is_first_pass_root(prog, rep, R):
         if body.npath.endswith("get_line_children"):
             continue
         for h, L in body.loops().items():
-            if not any(c.bb in L and ((c.callee or "").endswith("LogicalLine::get_parent")) for c in body.calls()) and \
+            def asks_parent(c, depth=0):
+                if (c.callee or "").endswith("LogicalLine::get_parent"):
+                    return True
+                cb3 = prog.body(c.resolved or c.callee or "")
+                return cb3 is not None and cb3.crate.startswith("pasfmt") and depth < 2 and any(asks_parent(k, depth + 1) for k in cb3.calls())
+            if not any(c.bb in L and asks_parent(c) for c in body.calls()) and \
                     not any("parent" in canon(body, a) for c in body.calls() if c.bb in L for a in c.args[:1]):
                 continue
             if any(c.bb in L and (c.callee or "").endswith("Iterator::next") for c in body.calls()):
